@@ -345,7 +345,45 @@ USER_DECLS = [
 USER_FUNCS = ["int32_t user_thing_drop(struct UserThing *thing);", "void user_clone(const struct UserThing *from, struct UserThing *to);", "uint32_t settings_context_flags(const struct Settings_Context *s);"]
 
 
-def random_model(seed, fnptr=False):
+def random_model(seed, fnptr=False, wrapped=False):
+    m = _random_model(seed, fnptr)
+    if wrapped:
+        add_wrapped(m, random.Random(seed ^ 0x77a9))
+    return m
+
+
+def add_wrapped(m, rng):
+    """a `Factory` trait whose entries return wrapped objects/groups (by value, consuming, and
+    borrowed through a RetTmp slot), exported as a single-trait object and inside a group"""
+    def methods_of(names):
+        return [x for n in names for x in m.traits[n].methods]
+    ctx = rng.choice(["Arc", "Arc", ""])
+    # a group usable by-mut: no consuming entries, no Clone
+    gname = None
+    for g, (mand, opt) in m.groups.items():
+        if "Clone" not in opt and not any(x.recv == "own" for x in methods_of(mand + opt)):
+            gname = g
+    if gname is None:
+        base = [n for n in m.traits if n != "Clone" and not any(x.recv == "own" for x in m.traits[n].methods)]
+        if not base:
+            m.traits["Plain"] = Trait("Plain", [Method("plain_get", "ref", [], "uint64_t"), Method("plain_set", "mut", [("uint64_t", "a0")])])
+            base = ["Plain"]
+        gname = "Inner"
+        m.groups[gname] = ([base[0]], base[1:2])
+    tobj = [n for n in m.traits if n != "Clone"][0]
+    ms = [Method("make_group", "mut", [("uint32_t", "a0")], ("group", gname, "Box")),
+          Method("into_group", "own", [], ("group", gname, "Box")),
+          Method("mut_group", "mut", [], ("groupptr", gname, "Mut")),
+          Method("make_obj", "ref", [("uint8_t", "a0")], ("obj", tobj, "Box"))]
+    rng.shuffle(ms)
+    m.traits["Factory"] = Trait("Factory", ms, rettmp_fields=[("mut_group", ("group", gname, "Mut"))])
+    m.roots.append(("obj", "Factory", "Box", ctx))
+    if rng.random() < 0.7:
+        m.groups["Outer"] = (["Factory"], ["Clone"] if rng.random() < 0.5 else [])
+        m.roots.append(("group", "Outer", "Box", ctx))
+
+
+def _random_model(seed, fnptr=False):
     rng = random.Random(seed)
     ntraits = rng.randint(1, 4)
     names = rng.sample(["Alpha", "Beta", "Gamma", "Delta", "Omega", "Store", "Reader"], ntraits)
